@@ -23,8 +23,12 @@ fn follow_up(r: &mut Prng, case: &mut Case) {
         post.push(Op::CtxGetVar { slot, name: n.into() });
     }
     post.push(Op::CtxGet { slot, name: (*r.pick(&["x", "z", "nope"])).into() });
-    if let Some(f) = funcs.first() {
+    // every context function must still be bound afterwards, and still be reachable by bare name
+    for f in &funcs {
         post.push(Op::CtxHasFunc { slot, name: f.clone() });
+    }
+    for f in funcs.iter().filter(|f| f.starts_with('b')).take(3) {
+        post.push(Op::CtxValue { slot, name: f.clone() });
     }
     // bare-name lookups as the evaluator does them: a variable and (if any) a context function
     post.push(Op::CtxValue { slot, name: "w".into() });
